@@ -1,6 +1,7 @@
 From Coq Require Import List Bool Arith NArith Permutation Sorted.
 From V.gen Require Consts.
-From V.C14 Require Import Model Proofs U256.
+From Coq Require Import ZArith.
+From V.C14 Require Import Model Proofs U256 GhostProofs AddrModel AddrProofs.
 Import ListNotations.
 From V.C14 Require Import Properties.
 Check (C14_placement :
@@ -150,3 +151,100 @@ Check (C14_reply_exactly_k_closest :
   (forall n, In n res -> In n cands) /\
   length res = Nat.min k (length cands) /\
   (forall a b, In a res -> In b cands -> ~ In b res -> dlt tgt a b)).
+Check (C14_gt_connected_stored :
+  forall local K h k, In k (ghost local K h) ->
+  exists i n, ilog2 (kxor local k) = Some i /\ In n (nth i (reach local K h) []) /\
+              n_key n = k /\ n_conn n = Connected).
+Check (C14_gt_connected_kept :
+  forall local K h1 h2 k, In k (ghost local K h1) -> ~ In (ODisconnected k) h2 ->
+  In k (ghost local K (h1 ++ h2)) /\
+  exists i n, ilog2 (kxor local k) = Some i /\ In n (nth i (reach local K (h1 ++ h2)) []) /\
+              n_key n = k /\ n_conn n = Connected).
+Check (C14_gt_last_claim :
+  forall local K h k,
+  In k (ghost local K h) <->
+  exists h1 o h2, h = h1 ++ o :: h2 /\ op_key o = k /\
+    claims_connected o (last_code local K h1 o) = true /\
+    stored_in local (reach local K (h1 ++ [o])) k = true /\
+    ~ In (ODisconnected k) h2).
+Check (C14_gt_disconnect_revokes :
+  forall local K h k, ~ In k (ghost local K (h ++ [ODisconnected k]))).
+Check (C14_gt_connected_returned :
+  forall local K h tgt kk k,
+  1 <= length local -> wf_ops local h -> length tgt = length local ->
+  outside_class local (reach local K h) tgt ->
+  In k (ghost local K h) ->
+  exists n, In n (concat (reach local K h)) /\ n_key n = k /\ n_conn n = Connected /\
+    (n_addr n = true ->
+     In n (closest local (reach local K h) tgt kk) \/
+     (length (closest local (reach local K h) tgt kk) = kk /\
+      forall a, In a (closest local (reach local K h) tgt kk) -> dlt tgt a n))).
+Check (C14_remention_displaces_refuted_before_fix :
+  exists local K h k,
+    wf_ops local h /\ In k (ghost local K h) /\
+    ~ exists i n,
+        In n (nth i (fold_left (fun t o => fst (step_gen add_conn_b local K t o)) h
+                               (empty_table (length local))) []) /\ n_key n = k).
+Check (C14_kad_gt_connected_stored :
+  forall local K h k, In k (kghost local K h) ->
+  exists i n, ilog2 (kxor local k) = Some i /\ In n (nth i (k_table (kreach local K h)) []) /\
+              n_key n = k /\ n_conn n = Connected).
+Check (C14_kad_gt_connected_kept :
+  forall local K h1 h2 k, In k (kghost local K h1) -> ~ In (KDisconnect k) h2 ->
+  In k (kghost local K (h1 ++ h2)) /\
+  exists i n, ilog2 (kxor local k) = Some i /\ In n (nth i (k_table (kreach local K (h1 ++ h2))) []) /\
+              n_key n = k /\ n_conn n = Connected).
+Check (C14_kad_gt_established :
+  forall local K h p d pe,
+  stored_in local (k_table (kreach local K (h ++ [KEstablished p d pe]))) p = true ->
+  In p (kghost local K (h ++ [KEstablished p d pe]))).
+Check (C14_kad_is_table_history :
+  forall local K h,
+  k_table (kreach local K h) = reach local K (kflat local K (kad_empty (length local)) h)).
+Check (C14_displaced_only_for_room :
+  forall local K t o j n,
+  In n (nth j t []) ->
+  ~ key_in (n_key n) (nth j (fst (step local K t o)) []) ->
+  ilog2 (kxor local (op_key o)) = Some j /\ K <= length (nth j t []) /\ replaceable n = true /\
+  stores_op o = true /\ ~ key_in (op_key o) (nth j t []) /\
+  exists a c, nth j t [] = a ++ n :: c /\ Forall (fun x => replaceable x = false) a).
+Check (C14_full_bucket_rejects :
+  forall local K t o i,
+  ilog2 (kxor local (op_key o)) = Some i -> K <= length (nth i t []) ->
+  Forall (fun x => replaceable x = false) (nth i t []) -> ~ key_in (op_key o) (nth i t []) ->
+  fst (step local K t o) = t /\
+  (snd (snd (step local K t o)) = 3 \/ snd (snd (step local K t o)) = 4)).
+Check (C14_addr_refines_table :
+  forall cap local K h,
+  r_table (rrun cap local K (rempty (length local)) h) = reach local K (map abs_op h)).
+Check (C14_addr_flag_is_store :
+  forall cap local K h, 1 <= cap ->
+  Forall2 (Forall2 (fun n st => n_addr n = nonempty st /\ length st <= cap /\ NoDup (map fst st)))
+          (r_table (rrun cap local K (rempty (length local)) h))
+          (r_stores (rrun cap local K (rempty (length local)) h))).
+Check (C14_addr_constants :
+  S_FAIL = (-100)%Z /\ S_OK = 100%Z /\ S_BONUS = 1%Z /\ CAP = 64 /\ REPORT = 32).
+Check (C14_addr_insert_never_empties :
+  forall cap s a sc v, 1 <= cap -> nonempty (fst (sinsert cap s a sc v)) = true).
+Check (C14_addr_reported :
+  forall s,
+  length (peer_addresses s) = Nat.min 32 (length s) /\
+  StronglySorted (fun x y => (snd y <= snd x)%Z) (peer_addresses s) /\
+  (forall x, In x (peer_addresses s) -> In x s) /\
+  (forall x y, In x (peer_addresses s) -> In y s -> ~ In y (peer_addresses s) -> (snd y <= snd x)%Z) /\
+  (NoDup (map fst s) -> NoDup (map fst (peer_addresses s)))).
+Check (C14_addr_dial_failure_marks :
+  forall cap s a z v, sfind a s = Some z ->
+  sinsert cap s a S_FAIL v = (sset a S_FAIL s, IUpdated) /\
+  sfind a (sset a S_FAIL s) = Some S_FAIL /\
+  forall b, b <> a -> sfind b (sset a S_FAIL s) = sfind b s).
+Check (C14_addr_readd_keeps_score :
+  forall cap s a z v, sfind a s = Some z -> sinsert cap s a 0%Z v = (s, IKept)).
+Check (C14_index_none_iff_same_key :
+  forall a b, length a = length b -> (ilog2 (kxor a b) = None <-> a = b)).
+Check (C14_index_top_bit :
+  forall x y a b, length a = length b -> xorb x y = true ->
+  ilog2 (kxor (x :: a) (y :: b)) = Some (length a)).
+Check (C14_no_distance_ties :
+  forall t a b, length t = length a -> length t = length b -> a <> b ->
+  kxor t a <> kxor t b /\ (klt (kxor t a) (kxor t b) = true \/ klt (kxor t b) (kxor t a) = true)).
